@@ -118,6 +118,9 @@ def run(ctx):
                     "mainLoop forwards ParseError tokens; tokenizer drains stream.errors", floor=5)
     r.rule("R16.3", "no except clause on the parse path can swallow ParseError around a call reaching parseError", floor=1)
 
+    # positions: the stream's line/column counters are re-initialised when the stream is restarted within a parse
+    from .c05 import stream_reset
+    stream_reset(ctx, "R16.6")
     E = ce.const("constants.py", "E")
     if not isinstance(E, dict) or len(E) < 100:
         raise AnalysisError("constants.E is not a dict of >=100 templates")
